@@ -228,6 +228,8 @@ def shape_obligations(repo, interp, it, g, k):
             try:
                 res = run_writer(repo, interp, it, g, method, newv, units)
             except Undecided as e:
+                if g["type"] == "Time":
+                    continue      # the text -> word conversion is decided on concrete "HH:MM" texts (R14), not on an opaque text
                 raise AnalysisError(f"{sk} {method}: cannot interpret the writer: {e}")
             results[(wname, units)] = res
             key = f"{sk}::{wname}" + (f"::{units}" if len(units_list) > 1 else "")
@@ -351,6 +353,51 @@ def field_overlaps(ctx, repo, T, rule):
     ctx.floor(rule, "pinned modules compared for field overlap", n_mod, 100)
 
 
+def time_items_round_trip(ctx, repo, rule):
+    """a Time item is a 2-byte field: hours byte, minutes byte, each 0..255 (durations of 24:00, a raw 0xFFFF).  A
+    GeckoTimeStructAccessor built by its constructor on a model structure: for texts "HH:MM" over a grid of hours and
+    minutes (clock values, 24:00, 00:60, 99:99, 255:255) both writers hand the word h*256 + m to the device write, and a
+    block holding that word reads back as the same text."""
+    from ..absint import ClassRef, Interp, Native, Obj, PyRaise, Undecided
+    T = "GeckoTimeStructAccessor"
+    if repo.cls(T, required=False) is None:
+        ctx.note(f"{T} not found - Time items are not decided by R14")
+        return
+    grid = (0, 1, 9, 23, 24, 25, 59, 60, 61, 99, 128, 255)
+    bad, n = None, 0
+    for h in grid:
+        for m in grid:
+            word = h * 256 + m
+            text = f"{h:02}:{m:02}"
+            it = Interp(repo, max_depth=12)
+            writes = []
+            blk = bytearray(64)
+            blk[6], blk[7] = h, m
+            st = Obj(None, {"status_block": bytes(64), "accessors": {}}, name="struct")
+            st.attrs["set_value"] = Native(lambda a, k, w=writes: w.append(tuple(a)), "set_value")
+            st.attrs["async_set_value"] = Native(lambda a, k, w=writes: w.append(tuple(a)), "async_set_value")
+            try:
+                acc = it.apply(ClassRef(repo.cls(T)), [st, "FiltDur", 6, "ALL"], {})
+                for wname in ("_set_value", "async_set_value"):
+                    it.steps = 0
+                    it.call(repo.method(T, wname), acc, [text])
+                st.attrs["status_block"] = bytes(blk)
+                shown = it.getattr(acc, "value")
+            except PyRaise as e:
+                shown = f"raises {e.what}"
+            except Undecided as e:
+                raise AnalysisError(f"{T} with the text {text!r}: {e}")
+            n += 1
+            okw = [w[-1] for w in writes] == [word, word] and all(tuple(w[:2]) == (6, 2) for w in writes)
+            if not (okw and shown == text) and bad is None:
+                bad = (text, word, writes, shown)
+    ctx.ob(rule, f"{T}::text-to-word-and-back", bad is None,
+           f"{T}: writing {bad[0] if bad else ''!r} hands {bad[2] if bad else ''} to the device write (expected (6, 2, {bad[1] if bad else ''}) from both writers) and a block holding that word reads {bad[3] if bad else ''!r}: "
+           f"the item does not read back what was written (hours and minutes are bytes: 24:00 and beyond are values of the field)", repo.method(T, "_set_value").loc,
+           sample={"rule": rule, "texts": n})
+    ctx.floor(rule, "Time texts written and read back", n, 100)
+
+
 def check(ctx):
     repo = Repo()
     T = tables(repo)
@@ -420,6 +467,8 @@ def check(ctx):
     ctx.ob("R12", "writable-bit-field-enums::examined", n12 > 0, "no writable bit-field Enum item found")
     # R13: the blocking path puts queued writes on the wire in the order they were made (the awaitable path sends from the
     # caller, in call order): the blocking engine's send queue is first-in first-out (C20's engine model)
+    ctx.rule("R14", "Time items over their whole field: for \"HH:MM\" texts on a grid of hours and minutes 0..255 (24:00, 00:60, 255:255 included) both writers of a GeckoTimeStructAccessor built by its constructor emit the word h*256+m, and a block holding that word reads back as the same text")
+    time_items_round_trip(ctx, repo, "R14")
     ctx.rule("R13", "writes reach the device in the order they were made, on both paths: the blocking engine's send queue, interpreted with several requests queued before the worker drains them, transmits them first-in first-out - a reversed queue leaves the FIRST value written in force and the two paths no longer emit identical device writes (C20.R1's engine model borrowed)")
     from ..enginemodel import engine_obligations as _eo
     _eo(ctx.borrowed("R13", "C20", only=("R1",), key_prefix="send-queue::fifo"), repo, "R1", "R2", "R3", "R4")
